@@ -435,7 +435,7 @@ fn run_families(rep: &mut Report, fams: &[Family], optnames: &[&'static str], n1
 const OPTSETS: &[&str] = &["default", "gfm", "all"];
 
 pub fn run(cfg: &Cfg, rep: &mut Report) {
-    rep.rule = "S: for every fragment up to length 3 (quick) / 4 (thorough) over the alphabet *_`[]()<>!&\\|~^$:-#=+@./\"' LF a 1 (fragments of only a/1/space skipped) the families a.f^n, (f LF)^n and f^n.a.mirror(f)^n, plus ~150 curated shapes as nest/tree/repeat/lines/paragraph families; each measured at two sizes n (2^11, 2^12 quick; up to 2^16, 2^17 thorough; length-3/4 fragments screened at smaller n and re-measured at the large sizes when the slope exceeds 1.1) under default, GFM and all-extensions options; per measurement: 12 deterministic step counters (hook comrak::verif::steps) over parse + HTML + CommonMark + XML, output lengths, wall clock in an isolated worker. Oracle: log-log slope of total steps <= 1.25 (+0.10 tolerance), output <= 160 n + 4096. K (equality of step counts, exhaustive short + random texts): backtick-scan == Lean btStepsPos on one-paragraph texts over {a, `}; dollar-scan (math_code on) == Lean dlSteps on texts over {$, `, a, \\}, and == cdSteps of the pieces when every scan runs to the end; emphasis-opener-search == Lean emSteps (pinned loop) on texts over {*, _, a, space}; proved bounds (3n; 14 n + chars for the repaired loop and for the pinned one without an odd match) re-checked on every text.".into();
+    rep.rule = "S: for every fragment up to length 3 (quick) / 4 (thorough) over the alphabet *_`[]()<>!&\\|~^$:-#=+@./\"' LF a 1 (fragments of only a/1/space skipped) the families a.f^n, (f LF)^n and f^n.a.mirror(f)^n, plus ~150 curated shapes as nest/tree/repeat/lines/paragraph families; each measured at two sizes n (2^11, 2^12 quick; up to 2^16, 2^17 thorough; length-3/4 fragments screened at smaller n and re-measured at the large sizes when the slope exceeds 1.1) under default, GFM and all-extensions options; per measurement: 12 deterministic step counters (hook comrak::verif::steps) over parse + HTML + CommonMark + XML, output lengths, wall clock in an isolated worker. Oracle: log-log slope of total steps <= 1.25 (+0.10 tolerance), output <= 160 n + 4096. K (equality of step counts, exhaustive short + random texts): backtick-scan == Lean btStepsPos on one-paragraph texts over {a, `}; dollar-scan (math_code on) == Lean dlSteps on texts over {$, `, a, \\}, and == cdSteps of the pieces when every scan runs to the end; emphasis-opener-search == Lean emSteps true (the code as it is since /repo commit 9704a60) on texts over {*, _, a, space}; proved bounds (3n; 19 n + chars for process_emphasis) re-checked on every text.".into();
     if std::env::var("CVH_C06_ICOUNT_ONLY").is_ok() {
         let mut ifams = wrap_families(cfg.tier_thorough);
         ifams.extend(curated().into_iter().filter(|f| f.shape == "nest"));
@@ -715,8 +715,9 @@ fn k_cd<'a>(bt: &mut Batch<'a>, rep: &mut Report, body: Vec<u8>) {
 }
 
 /// K for `process_emphasis`: the real `emphasis-opener-search` counter (index 5) of a one-paragraph text
-/// 'a' + w, w over letters, spaces, `*` and `_`, under default options == the Lean model `emSteps false`
-/// (the pinned code) run on the delimiter list of the text.
+/// 'a' + w, w over letters, spaces, `*` and `_`, under default options == the Lean model `emSteps true`
+/// (the code as it is since /repo commit 9704a60: 17 slots, bottom raised after every failed `*`/`_` search)
+/// run on the delimiter list of the text.
 fn k_em<'a>(bt: &mut Batch<'a>, rep: &mut Report, body: Vec<u8>) {
     let mut text = b"a".to_vec();
     text.extend_from_slice(&body);
@@ -734,37 +735,38 @@ fn k_em<'a>(bt: &mut Batch<'a>, rep: &mut Report, body: Vec<u8>) {
     let inp = format!("em {}", hex(&text));
     bt.push(format!("c06em {}", hex(&text)), move |resp, rep| {
         rep.k_evals += 1;
-        // answer: <steps as pinned> <steps with openers_bottom always updated> <delimiters> <delimiter characters>
+        // answer: <steps of the code as it is (emSteps true)> <steps of the loop before /repo commit 9704a60 (emSteps false)>
+        //         <delimiters> <delimiter characters> <no odd match>
         let f: Vec<&str> = resp.split(' ').collect();
         let get = |i: usize| f.get(i).and_then(|x| x.parse::<u64>().ok());
-        let (asis, fixed, n, chars) = match (get(0), get(1), get(2), get(3)) {
+        let (cur, old, n, chars) = match (get(0), get(1), get(2), get(3)) {
             (Some(a), Some(b), Some(c), Some(d)) => (a, b, c, d),
             _ => {
                 rep.disagree("emphasis-steps-model", inp, format!("model answer {:?} (fuel exhausted or malformed)", resp));
                 return;
             }
         };
-        if asis != real {
-            rep.disagree("emphasis-steps-model", inp, format!("real emphasis-opener-search steps = {} model emSteps = {}", real, asis));
+        if cur != real {
+            rep.disagree("emphasis-steps-model", inp, format!("real emphasis-opener-search steps = {} model emSteps true = {} (loop before the repair: {})", real, cur, old));
             return;
         }
-        if asis != fixed {
-            rep.count("k-emphasis-pinned-differs-from-repaired");
+        if cur != old {
+            rep.count("k-emphasis-code-differs-from-loop-before-repair");
         }
-        // emphasis_linear: proved for the repaired loop, and (emphasis_linear_pinned) for the pinned one on texts without an odd match
+        // emphasis_linear: proved for the code as it is on every text whose delimiters are `*` and `_` runs (all texts here)
+        if real > 19 * n + chars {
+            rep.disagree("emphasis-steps-bound", inp.clone(), format!("real steps {} exceed the proved bound 19 n + chars = {}", real, 19 * n + chars));
+        }
+        // emphasis_linear_old_noodd: the loop before the repair obeys the same bound on texts without an odd match
         let noodd = get(4) == Some(1);
-        if fixed > 14 * n + chars {
-            rep.disagree("emphasis-steps-bound", inp, format!("repaired-model steps {} exceed the proved bound 14 n + chars = {}", fixed, 14 * n + chars));
-        } else if noodd && real > 14 * n + chars {
-            rep.disagree("emphasis-steps-bound", inp, format!("no odd match in the text, yet real steps {} exceed the proved bound {}", real, 14 * n + chars));
-        } else if noodd && asis != fixed {
-            rep.disagree("emphasis-steps-bound", inp, format!("no odd match in the text, yet the pinned model ({}) and the repaired one ({}) differ", asis, fixed));
+        if noodd && old > 19 * n + chars {
+            rep.disagree("emphasis-steps-bound", inp, format!("no odd match in the text, yet the old-loop model steps {} exceed the proved bound {}", old, 19 * n + chars));
         }
         if !noodd {
             rep.count("k-emphasis-texts-with-an-odd-match");
         }
-        if real > 14 * n + chars {
-            rep.count("k-emphasis-real-above-linear-bound(rule-of-three)");
+        if old > 19 * n + chars {
+            rep.count("k-emphasis-old-loop-above-linear-bound(rule-of-three)");
         }
     });
 }
